@@ -793,6 +793,14 @@ DEFAULT_INLINE = {
     "unyt.unit_object.Unit.get_conversion_factor",
     "unyt.unit_object.Unit.__hash__",
     "unyt.array._iterable",
+    "unyt.array.unyt_array.__new__",
+    "unyt.array.unyt_quantity.__new__",
+    "unyt.array.unyt_array.d",
+    "unyt.array.unyt_array.ndview",
+    "unyt.array.unyt_array.ndarray_view",
+    "unyt.array.unyt_array.v",
+    "unyt.array.unyt_array.value",
+    "unyt.array.unyt_array.to_ndarray",
     "unyt.array._passthrough_unit",
     "unyt.array._return_without_unit",
     "unyt.array._arctan2_unit",
